@@ -1,6 +1,8 @@
 package main
 
 import (
+	"math"
+
 	"github.com/pgavlin/dawn"
 	"go.starlark.net/starlark"
 )
@@ -519,10 +521,57 @@ func envStream(r *rng, thorough bool) {
 		case c < 8:
 			nn = starlark.String("x")
 		}
-		envCase(o, nn, false)
+		envCase(o, nn, "")
 		if i%10 == 0 && o != starlark.None {
-			// the same environment decoded twice from one encoding
-			envCase(o, clone(o), true)
+			// the same environment again (a structurally identical copy has the same encoding)
+			envCase(o, clone(o), "")
 		}
 	}
+	for _, ac := range envAliasCases() {
+		envCase(ac.old, ac.new, ac.name)
+	}
+}
+
+
+type aliasCase struct {
+	name     string
+	old, new starlark.Value
+}
+
+// envAliasCases: pairs of environments that are == but that a function can tell apart, so that their encodings
+// differ (1 and 1.0, 0.0 and -0.0, one shared list and two equal lists), each alone and next to a real change;
+// and the same pairs the other way round.
+func envAliasCases() []aliasCase {
+	env := func(kvs ...any) *starlark.Dict {
+		d := starlark.NewDict(len(kvs) / 2)
+		for i := 0; i < len(kvs); i += 2 {
+			d.SetKey(starlark.String(kvs[i].(string)), kvs[i+1].(starlark.Value))
+		}
+		return d
+	}
+	lst := func(vs ...starlark.Value) *starlark.List { return starlark.NewList(vs) }
+	shared := lst(starlark.String("x"))
+	negZero := starlark.Float(math.Copysign(0, -1))
+	var out []aliasCase
+	add := func(name string, a, b starlark.Value) {
+		out = append(out, aliasCase{name, a, b}, aliasCase{name + ".rev", b, a})
+	}
+	add("int-float", env("constant values", starlark.Tuple{starlark.MakeInt(1)}, "code", starlark.Bytes("c")),
+		env("constant values", starlark.Tuple{starlark.Float(1)}, "code", starlark.Bytes("c")))
+	add("int-float-global", env("global values", env("X", starlark.MakeInt(1))), env("global values", env("X", starlark.Float(1))))
+	add("zero-negzero", env("constant values", starlark.Tuple{starlark.Float(0)}), env("constant values", starlark.Tuple{negZero}))
+	add("int0-negzero", env("default parameter values", env("p", starlark.MakeInt(0))), env("default parameter values", env("p", negZero)))
+	add("sharing", env("global values", env("A", shared, "B", shared)),
+		env("global values", env("A", lst(starlark.String("x")), "B", lst(starlark.String("x")))))
+	add("sharing-across-parts", env("global values", env("A", shared), "free variables", env("f", shared)),
+		env("global values", env("A", lst(starlark.String("x"))), "free variables", env("f", lst(starlark.String("x")))))
+	add("sharing-tuple", starlark.Tuple{shared, shared}, starlark.Tuple{lst(starlark.String("x")), lst(starlark.String("x"))})
+	// next to a real change: the reason names the part that differs by ==, not the aliasing
+	add("int-float-and-code", env("constant values", starlark.Tuple{starlark.MakeInt(1)}, "code", starlark.Bytes("c")),
+		env("constant values", starlark.Tuple{starlark.Float(1)}, "code", starlark.Bytes("d")))
+	add("sharing-and-names", env("global values", env("A", shared, "B", shared), "names", starlark.Tuple{starlark.String("n")}),
+		env("global values", env("A", lst(starlark.String("x")), "B", lst(starlark.String("x"))), "names", starlark.Tuple{}))
+	// float against float, really different
+	add("float-change", env("constant values", starlark.Tuple{starlark.Float(1)}), env("constant values", starlark.Tuple{starlark.Float(2)}))
+	return out
 }
